@@ -211,7 +211,7 @@ func c11Body(t *rapid.T) {
 			if w.inc.mqf.Active.Load() != 0 {
 				st.Count("consumers_left_open_by_dispatcher_library", int(w.inc.mqf.Active.Load()))
 			}
-			if busy, ok := quiesce.Wait(func() int { return w.targets[0].NumCalls() + w.targets[1].NumCalls() }, 5*time.Second); !ok {
+			if busy, ok := quiesce.WaitStable(func() int { return w.targets[0].NumCalls() + w.targets[1].NumCalls() }, 6*time.Second); !ok {
 				// distinguish a spinning goroutine from one that is merely slow to park
 				same := 0
 				for i := 0; i < 20; i++ {
@@ -285,7 +285,7 @@ func c11Body(t *rapid.T) {
 					abandoned = true
 					return
 				}
-				if _, quiet := quiesce.Wait(func() int { return w.targets[0].NumCalls() + w.targets[1].NumCalls() }, 5*time.Second); quiet {
+				if _, quiet := quiesce.WaitStable(func() int { return w.targets[0].NumCalls() + w.targets[1].NumCalls() }, 6*time.Second); quiet {
 					var names []string
 					for _, ta := range rows {
 						names = append(names, ta.label)
